@@ -82,6 +82,12 @@ func GenC19(t *rapid.T) *Case {
 	}
 	rootOf := func(p string) string { return strings.SplitN(p, "/", 2)[0] }
 	nops := rapid.IntRange(4, 30).Draw(t, "nops")
+	// some cases are long and move-heavy: the rename bookkeeping (cookie ring,
+	// path rewriting) is exercised well past its first ten moves
+	moveHeavy := Pct(t, "moveheavy", 15)
+	if moveHeavy {
+		nops = rapid.IntRange(30, 70).Draw(t, "nops-long")
+	}
 	inBurst := 0
 	plugged := false
 	sync := func() {
@@ -91,6 +97,12 @@ func GenC19(t *rapid.T) *Case {
 	}
 	for i := 0; i < nops; i++ {
 		k := rapid.IntRange(0, 99).Draw(t, "opkind")
+		if moveHeavy && k >= 34 && k < 80 {
+			k = 14 + k%12 // mostly inner directory renames
+			if rapid.Bool().Draw(t, "filemove") {
+				k = 99 // or file moves
+			}
+		}
 		switch {
 		case k < 14: // mkdir one level, then its Create must be delivered
 			parent := rapid.SampledFrom(allDirs()).Draw(t, "mkparent")
@@ -178,6 +190,9 @@ func GenC19(t *rapid.T) *Case {
 			}
 			_ = plugged
 			fk := rapid.IntRange(0, 9).Draw(t, "fkind")
+			if k == 99 {
+				fk = 9
+			}
 			fs := files()
 			switch {
 			case fk < 4 || len(fs) == 0:
